@@ -33,7 +33,7 @@ ALGOS = {
     # algo name for create_population, observation space, action space, INIT_HP, {hp attr: kind},
     # {learning-rate attribute: optimizers the algorithm steps with it}  (from the algorithms' constructors)
     "DQN": ("DQN", spaces.Box(-1, 1, (2,)), spaces.Discrete(2), {"BATCH_SIZE": 8, "LR": 1e-3, "LEARN_STEP": 2},
-            {"lr": "real", "batch_size": "int", "learn_step": "int"}, {"lr": ["optimizer"]}),
+            {"lr": "real", "batch_size": "int", "learn_step": "int", "gamma": "realfree", "tau": "realfree"}, {"lr": ["optimizer"]}),
     "DDPG": ("DDPG", spaces.Box(-1, 1, (2,)), spaces.Box(-1, 1, (1,)), {"BATCH_SIZE": 8, "LR_ACTOR": LR_A, "LR_CRITIC": LR_C, "SHARE_ENCODERS": False},
              {"lr_actor": "real", "lr_critic": "real", "batch_size": "int"}, {"lr_actor": ["actor_optimizer"], "lr_critic": ["critic_optimizer"]}),
     "TD3": ("TD3", spaces.Box(-1, 1, (2,)), spaces.Box(-1, 1, (1,)), {"BATCH_SIZE": 8, "LR_ACTOR": LR_A, "LR_CRITIC": LR_C, "SHARE_ENCODERS": False},
@@ -64,7 +64,7 @@ class HpMutation(Case):
     stubs = ("torch.rand / torch.randperm of agilerl.algorithms.core.registry -> arbitrary draw in [0,1) / arbitrary permutation",
              "RLParameter.dtype (user data) = float / int that accept proxies (identity / truncation on proxies)",
              "hyper-parameter attributes of the agents are overwritten with symbols AFTER construction (constructors assert concrete types)")
-    assumptions = ("min <= current value <= max for every configured hyper-parameter of every agent", "0 < shrink <= 1 <= grow",
+    assumptions = ("min <= current value <= max for every configured hyper-parameter of every agent", "learning rates: min > 0 and positive factors; other float hyper-parameters: any range (also below zero) and ANY factors",
                    "integer hyper-parameters: integral min >= 1, max and current value, shrink/grow factors fixed to the defaults 0.8 / 1.2; learning rates: min > 0")
     outside = ("that a learn step really uses the optimiser's lr (torch.optim)", "architecture / parameter / activation mutations")
 
@@ -90,18 +90,20 @@ class HpMutation(Case):
         cfg, spec = {}, {}
         for h in self.hps:
             kind = kinds[h]
-            mn, mx = v.scalar(f"{h}.min", kind), v.scalar(f"{h}.max", kind)
-            if kind == "real":
+            zk = "int" if kind == "int" else "real"
+            mn, mx = v.scalar(f"{h}.min", zk), v.scalar(f"{h}.max", zk)
+            if kind != "int":
                 sh, gr = v.real(f"{h}.shrink"), v.real(f"{h}.grow")
             else:
                 # integer hyper-parameters: concrete factors keep the arithmetic linear (value*factor, then truncation)
                 sh, gr = self.INT_FACTORS
-            v.assume(conj(mn <= mx, sh > 0, sh <= 1, gr >= 1))
-            if kind == "real":
-                v.assume(mn > 0)
-            else:
+            v.assume(mn <= mx)
+            if kind == "real":          # a learning rate: positive range, positive factors (torch.optim rejects negative rates)
+                v.assume(conj(mn > 0, sh > 0, gr > 0))
+            elif kind == "int":
                 v.assume(mn >= 1)
-            dtype = (sym_float if kind == "real" else sym_int) if sym else (float if kind == "real" else int)
+            # kind == "realfree": any range (also below zero) and any factors
+            dtype = (sym_float if kind != "int" else sym_int) if sym else (float if kind != "int" else int)
             cfg[h] = RLParameter(min=mn, max=mx, shrink_factor=sh, grow_factor=gr, dtype=dtype)
             spec[h] = (kind, mn, mx, sh, gr)
         hp = HyperparameterConfig(**cfg)
@@ -121,7 +123,7 @@ class HpMutation(Case):
             d = {}
             for h in self.hps:
                 kind, mn, mx, _, _ = spec[h]
-                x = v.scalar(f"agent{i}.{h}", kind)
+                x = v.scalar(f"agent{i}.{h}", "int" if kind == "int" else "real")
                 v.assume(conj(mn <= x, x <= mx))
                 setattr(a, h, x)
                 d[h] = x
@@ -204,7 +206,8 @@ class HpMutation(Case):
 def cases(tier):
     cs = [HpMutation("DQN", ["lr"]), HpMutation("DQN", ["lr", "batch_size"]), HpMutation("DQN", ["batch_size", "learn_step"], second=True),
           HpMutation("DDPG", ["lr_actor", "lr_critic"]), HpMutation("DQN", ["lr"], history="after-clone", second=True),
-          HpMutation("DDPG", ["lr_critic"], n_agents=1, one_lr_object=True)]
+          HpMutation("DDPG", ["lr_critic"], n_agents=1, one_lr_object=True),
+          HpMutation("PPO", ["lr"], n_agents=1), HpMutation("TD3", ["lr_critic"], n_agents=1), HpMutation("DQN", ["gamma", "tau"], n_agents=1, second=True)]
     if tier == "thorough":
         cs += [HpMutation("DQN", ["lr", "batch_size", "learn_step"], n_agents=3), HpMutation("DDPG", ["lr_actor", "lr_critic", "batch_size"]),
                HpMutation("TD3", ["lr_actor", "lr_critic"], history="after-clone"), HpMutation("PPO", ["lr", "batch_size"]),
